@@ -25,6 +25,14 @@ The trace is a list of JSON-able events; see `Run.ev`."""
 TARGET = ('127.0.0.1', 57110)
 
 
+class _Dur(float):
+    pass
+
+
+class _Count(int):
+    pass
+
+
 class Run:
     def __init__(self, prog, mode, ex=None):
         self.prog = prog
@@ -107,7 +115,12 @@ class Run:
                    run.late(), run.clockname(clock))
             if k in raises:
                 raise ValueError(f'task {fid} call {k}')
-            return returns[k] if k < len(returns) else None
+            r = returns[k] if k < len(returns) else None
+            if spec.get('numtype') and isinstance(r, (int, float)):
+                # numeric values that are instances of float / int subclasses
+                # (numpy scalars, IntEnum members ...) are numbers too
+                r = (_Dur(r) if isinstance(r, float) else _Count(r))
+            return r
 
         if spec.get('kind') == 'awakeable':
             class Awakeable:
